@@ -209,7 +209,7 @@ yin_match_keyword(struct lysp_yin_ctx *ctx, const char *name, size_t name_len, c
         }
         return kw;
     } else {
-        if (strncmp(start, "text", name_len) == 0) {
+        if ((name_len == ly_strlen_const("text")) && (strncmp(start, "text", name_len) == 0)) {
             return LY_STMT_ARG_TEXT;
         } else {
             return LY_STMT_NONE;
